@@ -19,10 +19,46 @@ HERE = os.path.dirname(os.path.abspath(__file__))
 DIGEST_FILE = os.path.join(HERE, 'reason_digests.json')
 
 
-def body_digest(f):
-    body = [s for s in f.node.body if not (isinstance(s, ast.Expr) and isinstance(s.value, ast.Constant))]
-    txt = '\n'.join(ast.dump(s, annotate_fields=False) for s in body)
+def stable_dump(n):
+    """A dump of the tree that does not depend on the Python version doing the parsing (ast.dump prints fields that newer
+    versions add): empty and absent fields, contexts and type comments are left out."""
+    if isinstance(n, ast.JoinedStr):
+        # the literal pieces of an f-string are split differently by different parser versions (3.12 adds empty pieces)
+        vals, buf = [], ''
+        for v in n.values:
+            if isinstance(v, ast.Constant) and isinstance(v.value, str):
+                buf += v.value
+            else:
+                if buf:
+                    vals.append(repr(buf))
+                    buf = ''
+                vals.append(stable_dump(v))
+        if buf:
+            vals.append(repr(buf))
+        return '(JoinedStr,' + ','.join(vals) + ')'
+    if isinstance(n, ast.AST):
+        parts = [type(n).__name__]
+        for fld in n._fields:
+            if fld in ('ctx', 'type_comment', 'type_params', 'kind'):
+                continue
+            v = getattr(n, fld, None)
+            if v is None or v == []:
+                continue
+            parts.append(f'{fld}={stable_dump(v)}')
+        return '(' + ','.join(parts) + ')'
+    if isinstance(n, list):
+        return '[' + ','.join(stable_dump(x) for x in n) + ']'
+    return repr(n)
+
+
+def node_digest(fn_node):
+    body = [s for s in fn_node.body if not (isinstance(s, ast.Expr) and isinstance(s.value, ast.Constant))]
+    txt = '\n'.join(stable_dump(s) for s in body)
     return hashlib.sha1(txt.encode()).hexdigest()[:16]
+
+
+def body_digest(f):
+    return node_digest(f.node)
 
 
 def all_reason_keys():
@@ -51,7 +87,14 @@ class Renames:
         except OSError:
             digests = {}
         baseline = set(digests.pop('*functions', {}))
-        orphans = {k: d for k, d in digests.items() if k not in model.funcs}
+        # (the model's own rename aliases make old keys answer too: look at the real table)
+        orphans = {k: d for k, d in digests.items() if not dict.__contains__(model.funcs, k)}
+        for old, newk in getattr(model, 'renamed', {}).items():
+            self.map[newk] = old
+            # closures of a renamed function keep their reasons too
+            for f in model.funcs.values():
+                if f.parent is not None and f.key.startswith(newk + '.'):
+                    self.map[f.key] = old + f.key[len(newk):]
         if orphans:
             by_digest = {}
             for f in model.funcs.values():
